@@ -112,7 +112,17 @@ def trailing_tag_without_param(t, table):
     T = {d["name"]: d for d in table}
     cur = None
     last_tag = None
+    depth = 0
     for k, val in toks:
+        if k == "left_bracket":
+            depth += 1
+            last_tag = None
+            continue
+        if k == "right_bracket":
+            depth -= 1
+            continue
+        if depth > 0:
+            continue
         if k == "identifier":
             if cur is not None and last_tag is not None:
                 return True
